@@ -650,4 +650,4 @@ def run_case(spec, rec):
 
 
 def subchecks(tier):
-    return [Sub("constraints", case_strategy(False), run_case, quick=8000, thorough=120000)]
+    return [Sub("constraints", case_strategy(False), run_case, quick=16000, thorough=160000)]
